@@ -57,6 +57,7 @@ structure AEMsg where
   prevTerm : Nat
   entries : List AEntry
   commit : Nat
+  stamp : Nat := 0          -- ghost: when the request was built (any value here; Model/ReplRead.lean pins it to its clock)
 deriving DecidableEq, Repr, Inhabited
 
 structure RVMsg where
@@ -127,10 +128,10 @@ inductive Step (cfg : Config) : AState → AState → Prop
         glog := fun t => if t = (s.nodes l).term then some (l, (s.nodes l).log ++ [⟨(s.nodes l).term, payload⟩]) else s.glog t,
         acked := (l, (s.nodes l).log.length + 1, (s.nodes l).term) :: s.acked }
   /-- a leader builds a replication request from any point of its log, with any number of entries -/
-  | sendAE (s : AState) (l prev k : Nat) :
+  | sendAE (s : AState) (l prev k stamp : Nat) :
       (s.nodes l).role = .leader → prev ≤ (s.nodes l).log.length →
       Step cfg s { s with
-        aes := ⟨(s.nodes l).term, prev, termAt (s.nodes l).log prev, ((s.nodes l).log.drop prev).take k, (s.nodes l).commit⟩ :: s.aes }
+        aes := ⟨(s.nodes l).term, prev, termAt (s.nodes l).log prev, ((s.nodes l).log.drop prev).take k, (s.nodes l).commit, stamp⟩ :: s.aes }
   /-- a node accepts a replication request: previous entry matches -/
   | recvAEok (s : AState) (n : Nat) (m : AEMsg) :
       m ∈ s.aes → (s.nodes n).term ≤ m.term →
